@@ -412,6 +412,17 @@ def CWORLD(prop):
     return world_family("cworld", "^TestCWorldRandom$", "cworld", MON.CWorldMonitor, prop, "c.init", _CWORLD_RULE, 300, 6000)
 
 
+_W1_RULE = ("W1: real tunnel client and real tunnel server joined by harness-owned FIFO carrier queues inside a synctest bubble; one stimulus per "
+            "quiescence: caller calls (new with metadata/deadline/pre-cancelled context, send at boundary sizes, close-send, recv, header, trailer, "
+            "cancel), handler calls (recv, send, set/send header, set trailer, return/reply), delivery of the single frame at the head of either "
+            "direction, ticks, shutdown flag, Close / carrier failure seen first by either end, then drain; both endpoint models check every step, "
+            "end-to-end monitors read both sides; non-trivial = distinct non-empty observations in the property's view")
+
+
+def W1(prop):
+    return world_family("w1", "^TestW1Random$", "w1", MON.W1Monitor, prop, "svc ", _W1_RULE, 150, 4000)
+
+
 def SWORLD(prop):
     return world_family("sworld", "^TestSWorldRandom$", "sworld", MON.SWorldMonitor, prop, "svc ", _SWORLD_RULE, 300, 6000)
 
@@ -457,9 +468,14 @@ PROPS = {
         "assumptions": ["as C08"],
     },
     "C01": {
-        "lean_targets": ["Proofs.Lemmas.Framing"],
-        "prop_files": [],
-        "families": [SWORLD("C01"), CWORLD("C01")],
+        "lean_targets": ["Proofs.Props.C01"],
+        "prop_files": ["Proofs/Props/C01.lean"],
+        "families": [W1("C01"), SWORLD("C01"), CWORLD("C01"), PUMP, SENDALL],
+        "side_conditions": ["Proofs.Facts.chunkMax_pos"],
+        "trusted_base": ["Framing.lean (chunking and reassembly), L-frame endpoint models, FIFO carrier assumption",
+                         "harness-side byte-for-byte check of every data frame and every delivered message against keyed payloads"],
+        "assumptions": ["the implementation does not inspect payload bytes (checked on real bytes by the harness; assumed by the size-only driver)",
+                        "the carrier is FIFO and reliable until it ends; protobuf encoding of application messages is outside the model"],
     },
     "C11": {
         "lean_targets": ["Proofs.Props.C11"],
@@ -473,7 +489,7 @@ PROPS = {
     "C03": {
         "lean_targets": ["Proofs.Props.C03"],
         "prop_files": ["Proofs/Props/C03.lean"],
-        "families": [SWORLD("C03"), CWORLD("C03")],
+        "families": [W1("C03"), SWORLD("C03"), CWORLD("C03")],
         "trusted_base": ["L-frame server endpoint model TunnelModel/LFrame/Server.lean; client endpoint model TunnelModel/LFrame/Client.lean"],
         "assumptions": ["as C08", "bounded transport buffering (finite K) is represented by the loop-idle observation B=1 of the harness, not by a theorem yet"],
     },
